@@ -39,7 +39,8 @@ RULE = ("'graders' (random): a grader spec (vlib/gspec.py) of one of the 8 kinds
         "default StringGraders an entry with positive grade sits at an input that equals a configured answer "
         "(groupings: exactly the entries whose input is the expected one are correct). Calls that raise are out of "
         "scope (counted). Non-trivial = a list result, or a partial grade, or attempt credit < 1 applied, or >= 2 "
-        "answer alternatives; distinct by spec.")
+        "answer alternatives; distinct by spec."
+        " 'debug-history' (exhaustive): eight parent/subgrader worlds; a debug=True parent handles every sequence of 1-2 (thorough: 3) inputs incl. raising ones, then every descendant configured without debug is called alone: no log markers, debug option still off. Every case of the random parts makes the same call twice on the same grader object: same outcome.")
 ASSUMPTIONS = ["inputs are text or lists of text; attempt is an int or omitted; author schedules return numbers in [0,1]",
                "a generated configuration that the library refuses at construction is discarded (counted), a call that "
                "raises is counted as 'raised' and not judged: the property speaks about calls that return",
